@@ -299,7 +299,7 @@ type fault struct {
 }
 
 type jsonCase struct {
-	Mode  string    `json:"mode"` // pipe | file | stdinfile | file2 | slurpfile | argjson | jsonargs | import
+	Mode  string    `json:"mode"` // pipe | inputs | file | stdinfile | file2 | slurpfile | argjson | jsonargs | import
 	Flags []string  `json:"flags,omitempty"`
 	EOL   string    `json:"eol"`
 	Pre   []docSpec `json:"pre,omitempty"`
@@ -429,7 +429,7 @@ func hasFlag(flags []string, f string) bool {
 // logic (seek-and-skip for regular files, sliding buffer for pipes).
 func windowed(mode string) bool { return mode != "import" }
 
-func piped(mode string) bool { return mode == "pipe" }
+func piped(mode string) bool { return mode == "pipe" || mode == "inputs" }
 
 // knownJSON returns the known-finding class a case structurally belongs to
 // ("" if none).  Every predicate is about the layout of the input, the
@@ -487,6 +487,10 @@ func runJSON(mode string, flags []string, data []byte) (report, string) {
 	case "pipe":
 		o.stdin, name = data, "<stdin>"
 		args = append(args, "empty")
+	case "inputs": // the same reader, driven by the query
+		o.stdin, name = data, "<stdin>"
+		args = append(args, "-n", "[inputs] | empty")
+		intro = "gojq: error: invalid json: "
 	case "file":
 		writeFile("in.json", data)
 		args = append(args, "empty", "in.json")
